@@ -25,7 +25,7 @@ ASSUMPTIONS = ['REPL model: line oriented, no echo, SIGINT cancels the open bloc
                'awaited form: run_command(async_=True) on the controlled real event loop (mc/aio.py), same sequences and cuts']
 EXHAUSTIVE = False      # complete only within the deviation bound, see BOUND_NOTE
 BOUND_NOTE = 'all placements of at most 2 chunk cuts are enumerated completely; more than 2 cuts per command sequence are not explored'
-REQUIRED_FLAGS = {'cut_inside_prompt': 1, 'incomplete_then_ok': 1, 'multiline': 1, 'large': 1, 'real_bash': 1}
+REQUIRED_FLAGS = {'cut_inside_prompt': 1, 'incomplete_then_ok': 1, 'multiline': 1, 'large': 1, 'real_bash': 1, 'real_python': 1}
 
 PROMPT = replwrap.PEXPECT_PROMPT
 CONT = replwrap.PEXPECT_CONTINUATION_PROMPT
@@ -41,6 +41,7 @@ COMMANDS = {
     'block3': ('begin\none\nend', 'block-done' + NL),
     'incomplete': ('begin', None),
     'trailingnl': ('one\n', 'line1' + NL),
+    'blankinside': ('begin\n\none', 'blank-closed' + NL + 'line1' + NL),
 }
 OUT = {'noout': '', 'one': 'line1' + NL, 'three': 'l1' + NL + 'l2' + NL + 'l3' + NL, 'nonl': 'partial',
        'big10k': 'x' * 10000 + NL, 'big300k': ('0123456789' * 30000) + NL}
@@ -120,6 +121,10 @@ class Repl(object):
             if line == 'end':
                 self.block = False
                 self.emit('block-done' + NL, self.prompt)
+            elif line == '':
+                # like the Python REPL: an empty line ends the block
+                self.block = False
+                self.emit('blank-closed' + NL, self.prompt)
             else:
                 self.emit('', self.cont)
         elif line == 'begin':
@@ -145,6 +150,8 @@ def tasks(tier):
         out.append(dict(kind='model', first=first, tier=tier, aio=True))
     for i in range(4):
         out.append(dict(kind='real-bash', part=i, parts=4, tier=tier))
+    for i in range(4):
+        out.append(dict(kind='real-python', part=i, parts=4, tier=tier))
     return out
 
 
@@ -229,11 +236,24 @@ BASH = {
     'block3': ('if true; then\necho block-done\nfi', 'block-done' + NL),
     'incomplete': ('if true; then', None),
     'trailingnl': ('echo line1\n', 'line1' + NL),
+    'quotedblank': ("echo 'a\n\nb'", 'a' + NL + NL + 'b' + NL),
+}
+
+PYTHON = {
+    'noout': ('pass', ''),
+    'one': ("print('line1')", 'line1' + NL),
+    'three': ("print('l1'); print('l2'); print('l3')", 'l1' + NL + 'l2' + NL + 'l3' + NL),
+    'nonl': ("import sys; sys.stdout.write('partial') and None", 'partial'),
+    'big10k': ("print('x' * 10000)", 'x' * 10000 + NL),
+    'block': ("for i in range(1):\n    print('block-done')\n", 'block-done' + NL),
+    'incomplete': ('def f():', None),
+    'blankinside': ("def f():\n    return 7\n\nprint(f())", '7' + NL),
 }
 
 
 def run_real(task, acc):
-    names = sorted(BASH)
+    TABLE, factory, label = (BASH, replwrap.bash, 'real-bash') if task['kind'] == 'real-bash' else (PYTHON, replwrap.python, 'real-python')
+    names = sorted(TABLE)
     seqs = [s for n in (1, 2) for s in itertools.product(names, repeat=n)]
     for i, seq in enumerate(seqs):
         if i % task['parts'] != task['part']:
@@ -243,10 +263,10 @@ def run_real(task, acc):
         res = None
         for attempt in range(2):
             try:
-                rw = replwrap.bash()
+                rw = factory()
                 res = []
                 for name in seq:
-                    cmd, want = BASH[name]
+                    cmd, want = TABLE[name]
                     try:
                         got = rw.run_command(cmd, timeout=20)
                         res.append((name, 'ret', got, want))
@@ -265,14 +285,14 @@ def run_real(task, acc):
         if res is None:
             acc.extra['real_inconclusive'] = acc.extra.get('real_inconclusive', 0) + 1
             continue
-        acc.flags['real_bash'] += 1
+        acc.flags['real_bash' if label == 'real-bash' else 'real_python'] += 1
         acc.nontrivial += 1
         acc.extra['env_traces_validated_against_real_repl'] = acc.extra.get('env_traces_validated_against_real_repl', 0) + 1
         for name, kind, got, want in res:
             ok = (kind == 'ValueError') if want is None else (kind == 'ret' and got == want)
             acc.outcomes['real:%s' % ('ok' if ok else 'differs')] += 1
             if not ok:
-                acc.violation('real-bash:%s' % name, 'real bash, sequence %r: command %s gave %s %r, expected %r'
+                acc.violation('%s:%s' % (label, name), label + ', sequence %r: command %s gave %s %r, expected %r'
                               % (seq, name, kind, got if not got or len(got) < 100 else got[:50], want if not want or len(want) < 100 else want[:50]),
                               dict(task=task, seq=list(seq), real=True))
                 break
@@ -280,7 +300,7 @@ def run_real(task, acc):
 
 def run_task(task):
     acc = Acc()
-    if task['kind'] == 'real-bash':
+    if task['kind'] in ('real-bash', 'real-python'):
         run_real(task, acc)
         acc.states += 1
         return acc
@@ -306,7 +326,7 @@ def run_task(task):
                     acc.flags['cut_inside_prompt'] += 1
                 if 'incomplete' in seq[:-1]:
                     acc.flags['incomplete_then_ok'] += 1
-                if any(s in ('twoline', 'block3') for s in seq):
+                if any(s in ('twoline', 'block3', 'blankinside') for s in seq):
                     acc.flags['multiline'] += 1
                 if big:
                     acc.flags['large'] += 1
